@@ -80,8 +80,8 @@ def item_key(it):
 
 
 def real_item_key(it):
-    if it["kind"] == "string":
-        return (it["loc"], "string", it["type"], it["objid"], it["gen"], len(it["plain"]), "-", len(it["path"]) - 1)
+    if it["kind"] in ("string", "atom"):
+        return (it["loc"], it["kind"], it["type"], it["objid"], it["gen"], len(it["plain"]), "-", len(it["path"]) - 1)
     return (it["loc"], "stream", it["type"], it["objid"], it["gen"], len(it["plain"]), it["filt"], 0)
 
 
@@ -176,10 +176,10 @@ def run_doc(job):
                     ed = doc.getobj(cd.encrypt_objid)
                     ok = ed["O"] == sec.O and ed["U"] == sec.U
                     extra[("encdict", "string", "encrypt", cd.encrypt_objid, 0, 32, "-", 0)] = "plain" if ok else "garbage"
-                if cfg["form"] == "xrefstm":
+                if cfg["form"] in ("xrefstm", "xrefstmw0", "hybrid"):
                     try:
                         xd = doc.getobj(cd.xref_id).get_data()
-                        ok = xd == doc.xrefs[0].data
+                        ok = xd == next(x.data for x in doc.xrefs if getattr(x, "data", None) is not None)
                     except Exception:
                         ok = False
                     extra[("xrefstm", "stream", "XRef", cd.xref_id, 0, 99, "flate", 0)] = "plain" if ok else "garbage"
